@@ -398,6 +398,60 @@ def substrates(data, rng):
             fh.write(data)
         f = open(base + '.raw', 'rb', buffering=0)
         return f, f.close
+    def mk_pipe(header, how):
+        """a buffered reader over an OS pipe (non-seekable); with a header the caller has consumed first, so that the
+        reader's own read-ahead buffer already holds the start of the data"""
+        import threading
+
+        def mk():
+            r, w = os.pipe()
+
+            def feed():
+                try:
+                    with os.fdopen(w, 'wb') as fw:
+                        fw.write(header + data)
+                except (BrokenPipeError, OSError):
+                    pass
+            th = threading.Thread(target=feed, daemon=True)
+            th.start()
+            f = os.fdopen(r, 'rb')
+            if header:
+                if how == 'peek':
+                    f.peek(len(header))
+                got = f.read(len(header))
+                assert got == header
+
+            def close():
+                try:
+                    f.close()
+                finally:
+                    th.join(5)
+            return f, close
+        return mk
+
+    def mk_socket():
+        import socket
+        import threading
+        a, b_ = socket.socketpair()
+
+        def feed():
+            try:
+                a.sendall(data)
+            except OSError:
+                pass
+            finally:
+                a.close()
+        th = threading.Thread(target=feed, daemon=True)
+        th.start()
+        f = b_.makefile('rb')
+
+        def close():
+            try:
+                f.close()
+                b_.close()
+            finally:
+                th.join(5)
+        return f, close
     nothing = lambda: None  # noqa
     mr = rng.choice([1, 7, 1000, B - 1])
     return [
@@ -411,10 +465,15 @@ def substrates(data, rng):
         ('seekable-raw', lambda: (SeekableRaw(data), nothing)),
         ('nonseekable', lambda: (complete_nonseekable(data), nothing)),
         ('nonseekable-short-reads', lambda: (complete_nonseekable(data, mr), nothing)),
+        ('pipe-buffered', mk_pipe(b'', None)),
+        ('pipe-buffered-after-header-read', mk_pipe(b'HDR1', 'read')),
+        ('pipe-buffered-after-header-peek', mk_pipe(b'\x00\x01\x02\x03\x04\x05\x06', 'peek')),
+        ('socket-makefile', mk_socket),
     ]
 
 
-NONSEEKABLE = ('nonseekable', 'nonseekable-short-reads', 'nonseekable-trickle')
+NONSEEKABLE = ('nonseekable', 'nonseekable-short-reads', 'nonseekable-trickle', 'pipe-buffered', 'pipe-buffered-after-header-read',
+               'pipe-buffered-after-header-peek', 'socket-makefile')
 
 
 def one_shot(dec, substrate, spec, t):
